@@ -36,6 +36,12 @@ fn check_output_option(sub: &str, args: &[&str], plain: &Run, out: &str, tree_ou
     if std::fs::write(out, &junk).is_err() {
         return;
     }
+    // the output file is named the way people name files: the extension says nothing about what is written
+    let out_owned = { let k = plain.stdout.len() % 6; let ext = ["", ".NEX", ".nexus", ".txt", ".tree.bak", ".phy"][k]; format!("{out}{ext}") };
+    let out = out_owned.as_str();
+    if std::fs::write(out, &junk).is_err() {
+        return;
+    }
     let mut a: Vec<&str> = args.to_vec();
     a.push("-o");
     a.push(out);
@@ -335,6 +341,22 @@ pub fn run(thorough: bool, seed: u64, driver: &str, rep: &mut Report) {
         if !ok {
             rep.oracle("stats", "several-files:rows-differ-from-single-file-runs", &format!("{ctx0}\nphylotree stats F1 .. F{}", files.len()), &format!("exit {:?}\n{}\nsingle-file rows: {single:?}", r.code, r.stdout));
         }
+        // an input that is not a regular file (a pipe: /dev/stdin) is an input like any other: it gets its row
+        if round % 2 == 0 {
+            use std::io::Write;
+            let child = Command::new(bin()).args(["stats", &files[0], "/dev/stdin"]).stdin(std::process::Stdio::piped()).stdout(std::process::Stdio::piped()).stderr(std::process::Stdio::null()).spawn();
+            if let Ok(mut ch) = child {
+                if let Some(mut si) = ch.stdin.take() { let _ = si.write_all(texts[1].as_bytes()); }
+                if let Ok(o) = ch.wait_with_output() {
+                    let out = String::from_utf8_lossy(&o.stdout).to_string();
+                    let rows: Vec<&str> = out.lines().skip(1).collect();
+                    rep.count("runs:stats-with-a-piped-input");
+                    if o.status.code() != Some(0) || rows.len() != 2 || !rows[1].ends_with(&single[1]) {
+                        rep.oracle("stats", "piped-input-has-no-row", &format!("{ctx0}\nphylotree stats F1 /dev/stdin   (the second tree piped in)"), &format!("exit {:?}\n{out}expected second row ...{}", o.status.code(), single[1]));
+                    }
+                }
+            }
+        }
         // compare: first file is the reference
         let single: Vec<String> = files[1..].iter().map(|f| run_cli(&["compare", &files[0], f]).stdout.lines().nth(1).unwrap_or("").to_string()).collect();
         let mut args = vec!["compare"];
@@ -533,6 +555,20 @@ pub fn run(thorough: bool, seed: u64, driver: &str, rep: &mut Report) {
             check_output_option("distance", &args, &r, &format!("{dir}/o{k}.tsv"), false, &format!("{ctx0}\nphylotree distance FILE {picks:?}"), rep);
             if ti % 2 == 1 {
                 check_relative_output("distance", &args, &r, &dir, false, &format!("{ctx0}\nphylotree distance FILE {picks:?}"), rep);
+            }
+            // the working directory holds a FILE spelled exactly like one of the tips (a list of other names): a tip argument is a name
+            if ti % 6 == 0 && picks[0].chars().all(|c| c.is_alphanumeric() || c == '_') {
+                let decoy = format!("{dir}/{}", picks[0]);
+                if std::fs::write(&decoy, leaves.join("\n")).is_ok() {
+                    let o = Command::new(bin()).args(&args).current_dir(&dir).output();
+                    let _ = std::fs::remove_file(&decoy);
+                    rep.count("runs:distance-with-a-file-named-like-a-tip");
+                    if let Ok(o) = o {
+                        if String::from_utf8_lossy(&o.stdout) != r.stdout || o.status.code() != r.code {
+                            rep.oracle("distance", "a-file-named-like-a-tip-changes-the-answer", &format!("{ctx0}\nphylotree distance FILE {picks:?}   (working directory holds a file named {:?})", picks[0]), &String::from_utf8_lossy(&o.stdout));
+                        }
+                    }
+                }
             }
             let dists = leaf_dists(&t);
             let mut want = "Seq1\tSeq2\tDistance\n".to_string();
